@@ -827,3 +827,24 @@ func newPostRequest(path string, hdr http.Header, body io.ReadCloser, cl int64) 
 	return &http.Request{Method: "POST", URL: &url.URL{Path: path}, Header: hdr, Proto: "HTTP/1.1", ProtoMajor: 1, ProtoMinor: 1,
 		Host: "verif.test", Body: body, ContentLength: cl, RemoteAddr: "192.0.2.1:1234"}
 }
+
+// plainWriter hides everything but the three ResponseWriter methods, the way a middleware does
+// that wraps the writer in a struct of its own: no Flush, no Hijack, no Unwrap.
+type plainWriter struct{ w http.ResponseWriter }
+
+func (p plainWriter) Header() http.Header         { return p.w.Header() }
+func (p plainWriter) Write(b []byte) (int, error) { return p.w.Write(b) }
+func (p plainWriter) WriteHeader(code int)        { p.w.WriteHeader(code) }
+
+type plainMux struct{ h http.Handler }
+
+func (p plainMux) ServeHTTP(w http.ResponseWriter, r *http.Request) { p.h.ServeHTTP(plainWriter{w}, r) }
+
+// h2Mux presents the request as an HTTP/2 one (what a browser speaks to a TLS server, also for
+// gRPC-web).
+type h2Mux struct{ h http.Handler }
+
+func (p h2Mux) ServeHTTP(w http.ResponseWriter, r *http.Request) {
+	r.Proto, r.ProtoMajor, r.ProtoMinor = "HTTP/2.0", 2, 0
+	p.h.ServeHTTP(w, r)
+}
